@@ -8,7 +8,7 @@ use crate::opt::{run_script, steps_inner, ForcedPolicy, OptCfg, RunOut, WorsePol
 use crate::probe::{Decision, Expect};
 
 pub const TITLE: &str = "Moves are accepted according to the Metropolis rule";
-pub const RULE: &str = "part deterministic: cyclic scripts of forced outcomes on synthetic states (2..8 parameters, 1..20 loops, kT = 0 or 1e-3..10, with and without a finishing temperature or cooling ratio): better by 1e-300..1e100 => accepted, equal => accepted, undefined => rejected, worse at kT=0 => rejected; the outcome of every step is read off the next proposal (which state it derives from); steps whose outcome cannot be read (two consecutive proposals on one coordinate, or a move clamped to no change) are excluded. part frequencies: constant temperature by construction (a single inner loop, so that no cooling schedule is involved), 8 parameters on [0,1] starting at 0.5 with max_step 1e-3 (never clamped), every proposal scripted worse by d; 12 fixed (d,kT) pairs with exp(-d/kT) in [0.02,0.98] including kT=1e-6 and kT=100, and generated pairs with d/kT log-uniform in [0.02,4] at kT log-uniform in [1e-6,100]; N counted trials per case (quick 2e5, thorough 2e6: a 6-sigma test then resolves an absolute bias of about 0.7% / 0.2%); accepted iff |p_hat - exp(-d/kT)| <= 6 sqrt(p(1-p)/N) + 1/N. part boundary: the optimiser's seeded generator (Pcg64Mcg; one index draw, one displacement draw, one acceptance draw per step) is replayed by the harness, so the acceptance draw u_k of every step is known in advance; proposal k is scripted worse by d with exp(-d/kT) = u_k(1+eps) on even steps (must be accepted) and u_k(1-eps) on odd steps (must be rejected), eps in 1e-8..1e-3, kT in 1e-6..100; an eighth of the cases first search consecutive seeds for a draw below 1e-6 or 1.5e-9, so that the rule is also decided where exp(-d/kT) is about 1e-9. The replay is trusted only while it predicts which parameter every proposal moves (otherwise the case is skipped and counted). Non-trivial = a frequency trial with 0.02<p<0.98, a boundary case with >= 10 judged steps, or a deterministic script in which all four kinds of step were resolved; distinct by hash of the case.";
+pub const RULE: &str = "part deterministic: cyclic scripts of forced outcomes on synthetic states (2..8 parameters, 1..20 loops, kT = 0 or 1e-3..10, with and without a finishing temperature or cooling ratio): better by 1e-300..1e100 => accepted, equal => accepted, undefined => rejected, worse at kT=0 => rejected; the outcome of every step is read off the next proposal (which state it derives from); steps whose outcome cannot be read (two consecutive proposals on one coordinate, or a move clamped to no change) are excluded. part frequencies: constant temperature by construction (a single inner loop, so that no cooling schedule is involved), 8 parameters on [0,1] starting at 0.5 with max_step 1e-3 (never clamped), every proposal scripted worse by d; 12 fixed (d,kT) pairs with exp(-d/kT) in [0.02,0.98] including kT=1e-6 and kT=100, and generated pairs with d/kT log-uniform in [0.02,4] at kT log-uniform in [1e-6,100]; N counted trials per case (quick 2e5, thorough 2e6: a 6-sigma test then resolves an absolute bias of about 0.7% / 0.2%); accepted iff |p_hat - exp(-d/kT)| <= 6 sqrt(p(1-p)/N) + 1/N. part boundary: the optimiser's seeded generator (Pcg64Mcg; one index draw, one displacement draw, one acceptance draw per step) is replayed by the harness, so the acceptance draw u_k of every step is known in advance; proposal k is scripted worse by d with exp(-d/kT) = u_k(1+eps) on even steps (must be accepted) and u_k(1-eps) on odd steps (must be rejected), eps in 1e-8..1e-3, kT in 1e-6..100; an eighth of the cases first search consecutive seeds for a draw below 1e-6 or 1.5e-9, so that the rule is also decided where exp(-d/kT) is about 1e-9. The replay is trusted only while it predicts which parameter every proposal moves (otherwise the case is skipped and counted). Non-trivial = a frequency trial with 0.02<p<0.98, a boundary case with >= 10 judged steps, or a deterministic script in which all four kinds of step were resolved; distinct by hash of the case. The deterministic part also runs at kT = 1e-300, 1e300 and +infinity (constant temperature).";
 
 pub fn assumptions() -> Vec<&'static str> {
     vec![
@@ -39,7 +39,8 @@ fn det_decision() -> BoxedStrategy<Decision> {
 fn det_strat(_: &Ctx) -> BoxedStrategy<DetCase> {
     (
         steps_inner(3000, 60),
-        prop_oneof![2 => Just(0.), 3 => (-3.0..1.0f64).prop_map(|e| 10f64.powf(e))],
+        // 0, ordinary, and the extremes of "all temperatures" (the latter only at constant temperature, see below)
+        prop_oneof![8 => Just(0.), 12 => (-3.0..1.0f64).prop_map(|e| 10f64.powf(e)), 1 => Just(1e300), 1 => Just(f64::INFINITY), 1 => Just(1e-300)],
         prop_oneof![Just(None), Just(Some(0.)), Just(Some(0.3))],
         prop_oneof![(-3.0..-1.0f64).prop_map(|e| 10f64.powf(e)), Just(0.01)],
         any::<u64>(),
@@ -47,7 +48,11 @@ fn det_strat(_: &Ctx) -> BoxedStrategy<DetCase> {
         proptest::collection::vec(det_decision(), 1..48),
         prop_oneof![2 => Just(None), 1 => Just(Some(0.001)), 1 => Just(Some(0.1)), 1 => Just(Some(0.))],
     )
-        .prop_map(|((steps, inner), kt_start, kt_ratio, max_step, seed, n, decisions, kt_finish)| DetCase { cfg: OptCfg { steps, inner, kt_start, kt_finish, kt_ratio, max_step, convergence: if seed % 5 == 0 { Some(1e-9) } else { None }, seed }, n, decisions })
+        .prop_map(|((steps, inner), kt_start, kt_ratio, max_step, seed, n, decisions, kt_finish)| {
+            // an infinite or huge temperature is kept constant: cooling it by a factor derived from kt_finish is not defined
+            let (kt_ratio, kt_finish) = if kt_start > 1e100 { (Some(0.), None) } else { (kt_ratio, kt_finish) };
+            DetCase { cfg: OptCfg { steps, inner, kt_start, kt_finish, kt_ratio, max_step, convergence: if seed % 5 == 0 { Some(1e-9) } else { None }, seed }, n, decisions }
+        })
         .boxed()
 }
 
